@@ -467,12 +467,27 @@ def cases(draw, pool='lite'):
     return {'dialect': d, 'sql': sql, 'origin': mode}
 
 
+def type_catalogue():
+    """every class name of sqlalchemy.types (the renderer resolves type names through that module) and the usual SQL
+    spellings, each bare, with a length / precision and with precision and scale"""
+    import sqlalchemy.types as sat
+    names = {n.lower() for n in dir(sat) if isinstance(getattr(sat, n), type) and not n.startswith('_')}
+    names |= {'tinyint', 'smallint', 'mediumint', 'longtext', 'mediumtext', 'tinytext', 'nvarchar', 'nchar', 'character',
+              'double precision', 'bit', 'binary', 'varbinary', 'year', 'timestamptz', 'number', 'string', 'long', 'bytea'}
+    out = []
+    for n in sorted(names):
+        for arg in ('', '(3)', '(6)', '(10, 2)'):
+            if n + arg not in COLTYPES:
+                out.append(n + arg)
+    return out
+
+
 def fixed_cases():
     out = []
     for x in corpus.accepted():
         out.append({'dialect': x['dialect'], 'sql': x['sql'], 'origin': 'corpus'})
     shapes = list(SHAPES)
-    for ty in COLTYPES:
+    for ty in COLTYPES + type_catalogue():
         shapes.append(f'create table t (a {ty})')
         shapes.append(f'select cast(a as {ty}) from t')
     for op in BINOPS:
@@ -499,7 +514,7 @@ def run_shard(col, k, nshards, tier, seed):
             for rec in judge(c, col):
                 col.fail(rec, c)
     if k == 0:
-        col.exhaustive_parts.append(f'all {len(corpus.accepted())} corpus statements and {len(SHAPES) + 2 * len(COLTYPES) + 5 * len(BINOPS)} targeted shapes x 3 parser '
+        col.exhaustive_parts.append(f'all {len(corpus.accepted())} corpus statements and {len(SHAPES) + 2 * len(COLTYPES + type_catalogue()) + 5 * len(BINOPS)} targeted shapes x 3 parser '
                                     f'dialects x {len(TARGETS)} renderer dialect names; every expression fragment in every statement frame '
                                     f'({len(FRAMES)} x {len(FRAGS)}) and every table fragment in every table frame ({len(TABLE_FRAMES)} x '
                                     f'{len(TABLE_FRAGS)}) x 3 parser dialects')
